@@ -164,6 +164,8 @@ def bases():
         out.append(Base("blog.a.co.uk", "/p", items))
     out.append(Base("a.com", "/wiki/mi\u200cxaham", ["q=a\u200bb", "r=\u2060x"]))
     out.append(Base("a.com", "/a\ufeffb/", ["id=1"], "!/ro\u200cute"))
+    # an escape AND a raw blank in the same component (path, item, routing fragment): the blank is written %20 every time the component is read
+    out.append(Base("a.com", "/a b%C3%A9/c", ["x=1 2%C3%A9", "k%41=v w"], "/r t%C3%A9"))
     # ... and dropped on their own hosts, whichever irrelevant spelling the host comes in
     out.append(Base("youtube.com", "/watch", ["v=abc12345678", "t=10", "ab_channel=x"]))
     out.append(Base("facebook.com", "/p", ["id=7", "_rdr"]))
@@ -179,6 +181,8 @@ def bases():
     out.append(Base("a.com", "/search", ["q=http://b.com/x"]))
     out.append(Base("a.com", "/r", ["q=b.com/x", "v=1"]))
     out.append(Base("a.com", "/r", ["redirect_to=http%3A%2F%2Fb.com%2Fx"]))
+    # a search item next to a redirection: the order of the two items is an order of query items
+    out.append(Base("a.com", "/s", ["q=x", "url=http%3A%2F%2Fb.com%2Fy"]))
     out.append(Base("a.com", "/a", ["id=1"], "/route"))
     out.append(Base("a.com", "/a", [], "!/route"))
     return out
